@@ -24,15 +24,20 @@ def setup():
         mod = importlib.import_module(f'harness.props.{p.lower()}')
         if hasattr(mod, 'pregen'):
             mod.pregen('quick')
-    rc, out = C.coq_make(None)
+    # -k: a file that does not compile must not stop the others; the check of the property that
+    # depends on it reports the broken obligation (setup only prepares build products)
+    rc, out = C.coq_make(None, keep_going=True)
     if rc:
-        print(out[-4000:])
-        return 1
+        print(out[-3000:])
+        print('setup: some Coq targets failed to build; the checks that depend on them will report it')
     for p in props():
         mod = importlib.import_module(f'harness.props.{p.lower()}')
         if getattr(mod, 'MODEL', None):
-            C.build_model(mod.MODEL)
-    print('setup ok')
+            try:
+                C.build_model(mod.MODEL)
+            except Exception as e:
+                print(f'setup: model binary for {p} not built: {str(e)[-300:]}')
+    print('setup ok' if not rc else 'setup finished with build failures')
     return 0
 
 
